@@ -5,7 +5,11 @@
     rtrlib/rtr/packets.c   rtr_check_interval_range, apply_interval_value, rtr_check_interval_option,
                            the interval part of the End-of-Data branch of
                            rtr_sync_receive_and_store_pdus, the version handling of rtr_receive_pdu
-                           that decides which End of Data a socket accepts, rtr_wait_for_sync
+                           that decides which End of Data a socket accepts, rtr_wait_for_sync,
+                           the two tr_recv_all calls of rtr_receive_pdu (header with the caller's
+                           timeout, remainder with RTR_RECV_TIMEOUT)
+    rtrlib/transport/transport.c   tr_recv_all: the receive loop that hands the transport the time
+                           that is left until `entry time + timeout` on every call
     rtrlib/rtr/rtr.c       rtr_init (range checks), the RTR_ESTABLISHED branch of rtr_fsm_start
     rtrlib/rtr_mgr.c       rtr_mgr_init (passes the intervals to rtr_init, mode DEFAULT_MIN_MAX)
 
@@ -15,6 +19,7 @@
   enumerator values come from `Generated.Constants`.
 -/
 import RtrModel.Generated.Constants
+import RtrModel.Generated.PduLayout
 
 namespace Rtr.Intervals
 
@@ -205,6 +210,88 @@ def establishedStep (ev : WaitEvent) : Action :=
     | .error => .leave
     | _ => .waitAgain
 
+/-! ### PDUs that arrive in pieces: `tr_recv_all` under a clock
+
+    `rtr_receive_pdu` reads the 8-byte header with `tr_recv_all(…, timeout)` and the rest of the PDU
+    with `tr_recv_all(…, RTR_RECV_TIMEOUT)`.  `tr_recv_all` reads the monotonic clock once on entry
+    (`end_time = now + timeout`) and once before EVERY call of the transport receive function, which
+    gets `end_time − now` as its timeout.  The scripted transport delivers the PDU in fragments. -/
+
+/-- `n` bytes of the PDU that reach the client `dt` seconds after the previous fragment was
+    delivered (the first one: after the wait began) -/
+structure Frag where
+  dt : Nat
+  n : Nat
+deriving DecidableEq, Repr
+
+/-- one call of the transport receive function: bytes asked for, timeout argument, clock reading -/
+structure RecvCall where
+  len : Nat
+  timeout : Int
+  now : Int
+deriving DecidableEq, Repr
+
+/-- the scripted transport's receive function, called for `len` bytes with `timeout` at clock `now`:
+    bytes delivered (`none` = TR_WOULDBLOCK), clock afterwards, fragments still to come.  A fragment
+    that is due within the timeout (a timeout of 0 polls: only what is there already) is delivered
+    when it is due; otherwise the whole timeout passes (a negative one passes no time). -/
+def mockRecv (len : Nat) (timeout now : Int) : List Frag → Option Nat × Int × List Frag
+  | [] => (none, now + max timeout 0, [])
+  | f :: rest =>
+    if (f.dt : Int) ≤ timeout then
+      (some (min f.n len), now + (f.dt : Int), if f.n ≤ len then rest else ⟨0, f.n - len⟩ :: rest)
+    else (none, now + max timeout 0, rest)
+
+/-- result of one `tr_recv_all` -/
+structure RecvAll where
+  calls : List RecvCall
+  now : Int
+  rest : List Frag
+  complete : Bool            -- `false`: a transport call returned TR_WOULDBLOCK
+deriving DecidableEq, Repr
+
+/-- the loop of `tr_recv_all` with `end_time = endTime`, `rem` bytes still missing, clock `now`.
+    `fuel` bounds the number of transport calls (every call delivers at least one byte, so
+    `fuel = rem` suffices; fragments of 0 bytes are not part of the protocol). -/
+def recvAll (endTime : Int) : Nat → Nat → Int → List Frag → RecvAll
+  | 0, rem, now, fr => ⟨[], now, fr, rem = 0⟩
+  | fuel + 1, rem, now, fr =>
+    if rem = 0 then ⟨[], now, fr, true⟩ else
+    let t := endTime - now
+    match mockRecv rem t now fr with
+    | (none, now', fr') => ⟨[⟨rem, t, now⟩], now', fr', false⟩
+    | (some k, now', fr') =>
+      let r := recvAll endTime fuel (rem - k) now' fr'
+      ⟨⟨rem, t, now⟩ :: r.calls, r.now, r.rest, r.complete⟩
+
+/-- result of `rtr_receive_pdu` as far as time is concerned -/
+structure PduRecv where
+  hcalls : List RecvCall     -- transport calls made for the header
+  bcalls : List RecvCall     -- transport calls made for the rest of the PDU
+  now : Int                  -- clock when rtr_receive_pdu returns
+  complete : Bool            -- the whole PDU was read (`false` = TR_WOULDBLOCK)
+deriving DecidableEq, Repr
+
+/-- `rtr_receive_pdu(…, timeout)` entered at clock `now` for a well-formed PDU of `8 + body` bytes -/
+def receivePdu (body : Nat) (timeout now : Int) (fr : List Frag) : PduRecv :=
+  let h := recvAll (now + timeout) Gen.sizeof_pdu_header Gen.sizeof_pdu_header now fr
+  if h.complete = false ∨ body = 0 then ⟨h.calls, [], h.now, h.complete⟩ else
+  let b := recvAll (h.now + (Gen.RTR_RECV_TIMEOUT : Int)) body body h.now h.rest
+  ⟨h.calls, b.calls, b.now, b.complete⟩
+
+/-- `rtr_wait_for_sync` entered at clock `now` while the cache sends a PDU of `8 + body` bytes in
+    fragments -/
+def waitPdu (s : Sock) (now : Int) (body : Nat) (fr : List Frag) : PduRecv :=
+  receivePdu body (waitTimeout s now) now fr
+
+/-- return value of that `rtr_wait_for_sync`: a complete Serial Notify and an expired wait both
+    trigger the poll -/
+def waitPduRc (isNotify : Bool) (p : PduRecv) : Int :=
+  if p.complete = true ∧ isNotify = false then Gen.RTR_ERROR else Gen.RTR_SUCCESS
+
+/-- bytes of a Serial Notify behind the header -/
+def notifyBody : Nat := Gen.sizeof_pdu_serial_notify - Gen.sizeof_pdu_header
+
 /-! ### scripted run of the state machine (trace of the transport calls that matter)
 
     A cache that answers every query with  Cache Response, End of Data(ver, e, r, y)  and, while
@@ -214,11 +301,15 @@ def establishedStep (ev : WaitEvent) : Action :=
 inductive TraceItem where
   | send (pduType : Nat) (now : Int)       -- a PDU handed to the transport send function
   | wait (timeout : Int) (now : Int)        -- first receive call of rtr_wait_for_sync
+  | recv (len : Nat) (timeout : Int) (now : Int)  -- every receive call of a wait whose PDU comes in fragments
 deriving DecidableEq, Repr
 
 def TraceItem.time : TraceItem → Int
   | .send _ n => n
   | .wait _ n => n
+  | .recv _ _ n => n
+
+def callItems (cs : List RecvCall) : List TraceItem := cs.map (fun c => .recv c.len c.timeout c.now)
 
 structure Ev where
   ev : WaitEvent
@@ -226,6 +317,8 @@ structure Ev where
   e : UInt32
   r : UInt32
   y : UInt32
+  /-- non-empty: the event is a Serial Notify that arrives in these fragments (`dt` is not used) -/
+  frags : List Frag := []
 deriving Repr
 
 /-- when the scripted event reaches the client that started waiting at `now` with timeout `t` -/
@@ -237,8 +330,17 @@ def fsmEstablished (ver : Nat) : Sock → Int → List Ev → List TraceItem
   | s, now, [] => [.wait (waitTimeout s now) now]
   | s, now, ev :: rest =>
     let t := waitTimeout s now
-    let now' := arrival ev now t
     let here := TraceItem.wait t now
+    if ev.frags ≠ [] then
+      -- a Serial Notify in fragments, then silence: whether it completes or the wait expires, the
+      -- client polls when rtr_wait_for_sync returns
+      let p := waitPdu s now notifyBody ev.frags
+      let items := here :: callItems (p.hcalls ++ p.bcalls)
+      let (s', rc) := syncCrEod s ver ev.e ev.r ev.y p.now
+      if rc = Gen.RTR_SUCCESS then items ++ .send 1 p.now :: fsmEstablished ver s' p.now rest
+      else items ++ [.send 1 p.now]
+    else
+    let now' := arrival ev now t
     match establishedStep ev.ev with
     | .sendSerialQuery =>
       -- Serial Query, then rtr_sync on the scripted answer
